@@ -86,5 +86,8 @@ _sl = R.contracts["Node._handle_connections@for:wsock"]
 _sl.ensures.append(_Clause("closing-connection-is-closed-only-after-its-output-is-flushed",
     "implies(old(wconn(self, wsock)).g_close_calls == old(wconn(self, wsock).g_close_calls) + 1 and "
     "old(wconn(self, wsock)).g_close_reason == %d, len(old(wconn(self, wsock))._write_buffer) == 0)" % R_CLEAN))
+_sl.ensures.append(_Clause("clean-close-only-after-the-dpa",
+    "implies(old(wconn(self, wsock)).g_close_calls == old(wconn(self, wsock).g_close_calls) + 1 and "
+    "old(wconn(self, wsock)).g_close_reason == %d, old(wconn(self, wsock).state) == %d)" % (R_CLEAN, CLOSING)))
 if "C18" not in _sl.props:
     _sl.props.append("C18")
